@@ -253,6 +253,14 @@ pub fn format(text: String, insert_spaces: bool, tab_size: u32) -> String {
 pub fn run(op: &str, args: &[&str]) -> Option<String> {
     let num = |s: &str| s.parse::<u32>().ok();
     match (op, args) {
+        ("SPECGOTO", [k, t, l, c]) => Some(goto(k, unhex_str(t)?, num(l)?, num(c)?)),
+        ("SPECREFS", [t, l, c]) => Some(refs(unhex_str(t)?, num(l)?, num(c)?)),
+        ("SPECREN", [t, l, c, n]) => Some(rename(unhex_str(t)?, num(l)?, num(c)?, unhex_str(n)?)),
+        ("SPECPREP", [t, l, c]) => Some(prepare(unhex_str(t)?, num(l)?, num(c)?)),
+        ("SPECHOV", [t, l, c]) => Some(hover(unhex_str(t)?, num(l)?, num(c)?)),
+        ("SPECSIG", [t, l, c]) => Some(signature(unhex_str(t)?, num(l)?, num(c)?)),
+        ("SPECFOLD", [t]) => Some(fold(unhex_str(t)?)),
+        ("SPECSEM", [t]) | ("JUDGESEM", [t]) => Some(semantic(unhex_str(t)?)),
         ("GOTO", [k, t, l, c]) => Some(goto(k, unhex_str(t)?, num(l)?, num(c)?)),
         ("REFS", [t, l, c]) => Some(refs(unhex_str(t)?, num(l)?, num(c)?)),
         ("REN", [t, l, c, n]) => Some(rename(unhex_str(t)?, num(l)?, num(c)?, unhex_str(n)?)),
@@ -337,18 +345,33 @@ pub fn gen_feature_cases(rng: &mut Rng, n: usize, ops: &[&str], broken_pct: usiz
         p2.toks = toks;
         let positions = gen_positions(rng, &text, &p2, &offs, 6);
         for op in ops {
+            let spec = !broken;
             match *op {
-                "FOLD" | "SEM" => out.push(format!("{} {}", op, h)),
+                "FOLD" | "SEM" => {
+                    out.push(format!("{} {}", op, h));
+                    if spec {
+                        out.push(format!("SPEC{} {}", op, h));
+                    }
+                    if *op == "SEM" {
+                        out.push(format!("JUDGESEM {}", h));
+                    }
+                }
                 "GOTO" => {
                     for (l, c) in &positions {
                         for k in ["decl", "typedef", "impl"] {
                             out.push(format!("GOTO {} {} {} {}", k, h, l, c));
+                            if spec {
+                                out.push(format!("SPECGOTO {} {} {} {}", k, h, l, c));
+                            }
                         }
                     }
                 }
                 "REN" => {
                     for (l, c) in &positions {
                         out.push(format!("REN {} {} {} {}", h, l, c, hex_str("renamed_1")));
+                        if spec {
+                            out.push(format!("SPECREN {} {} {} {}", h, l, c, hex_str("renamed_1")));
+                        }
                     }
                 }
                 "FMT" => {
@@ -358,6 +381,9 @@ pub fn gen_feature_cases(rng: &mut Rng, n: usize, ops: &[&str], broken_pct: usiz
                 _ => {
                     for (l, c) in &positions {
                         out.push(format!("{} {} {} {}", op, h, l, c));
+                        if spec && *op != "COMP" {
+                            out.push(format!("SPEC{} {} {} {}", op, h, l, c));
+                        }
                     }
                 }
             }
